@@ -85,6 +85,11 @@ func (p *C08) Gen(seed uint64, i int, tier string) *scen.Scenario {
 	}
 	sc.World.Flags = []string{"LnoInterrupt"}
 	sc.World.NoFlags = []string{"Lcaller"}
+	if scen.Mix(seed, 1008, uint64(i))%4 == 0 {
+		// records name their call site: every entry point is called from one statement of the world's interpreter,
+		// so all records of one entry point must name the same line
+		sc.World.NoFlags = nil
+	}
 	if r.Chance(1, 3) {
 		sc.World.Flags = append(sc.World.Flags, "LattrsR")
 	}
@@ -393,7 +398,7 @@ func (p *C08) Check(sc *scen.Scenario, run *orch.Run, env *orch.Env) []orch.Viol
 			add("C08.datarace", "at="+strings.Join(rep.LoggFuncs, "<"), "the Go race detector reports a data race between caller tasks (schedule fixed by the tape):\n%.1800s", rep.Text)
 		}
 		if harness > 0 {
-			add("C08.harness-race", "harness", "%d race reports lie entirely in harness code (simulator problem, not a finding)", harness)
+			add("HARNESS.race", "harness", "%d race reports lie entirely in harness code (simulator problem, not a finding)", harness)
 		}
 		if worldDied(run) && !strings.Contains(string(run.Stderr), "DATA RACE") {
 			add("C08.terminated", "race-world", "race world ended early exit=%d stderr=%.300q", run.ExitCode, lastLines(run.Stderr, 300))
@@ -460,22 +465,20 @@ func (p *C08) Check(sc *scen.Scenario, run *orch.Run, env *orch.Env) []orch.Viol
 		ph        string
 	}
 	calls := map[string]call{}
-	byPos := map[string]string{} // phase/task/op -> token
 	for i := range sc.Setup {
 		if op := &sc.Setup[i]; op.Op == "log" {
 			calls[op.Tok] = call{0, i, op, "setup"}
-			byPos[opKey("setup", 0, i+1)] = op.Tok
 		}
 	}
 	for _, t := range sc.Tasks {
 		for i := range t.Ops {
 			calls[t.Ops[i].Tok] = call{t.ID, i, &t.Ops[i], "task"}
-			byPos[opKey("task", t.ID, i+1)] = t.Ops[i].Tok
 		}
 	}
 	nestedToks := relogTokens(sc)
 	reg := model.NewRegistry()
-	delivered := map[int]map[string]int{} // writer -> token -> count
+	siteOf, siteTok := map[string]string{}, map[string]string{} // calling statement -> line named by its records, and the first such record
+	delivered := map[int]map[string]int{}                       // writer -> token -> count
 	ops := indexOps(run)
 	for _, t := range sc.Tasks {
 		for i := range t.Ops {
@@ -491,16 +494,13 @@ func (p *C08) Check(sc *scen.Scenario, run *orch.Run, env *orch.Env) []orch.Viol
 		}
 		text := stripSGR(e.P)
 		if string(e.P) == "\n" {
-			// the record of a blank Print/Println: attributed by the call during which it was written
-			tk := byPos[opKey(e.Ph, e.T, e.Op)]
-			if c, ok := calls[tk]; ok && c.op.Kind == "blank" {
-				if delivered[e.W] == nil {
-					delivered[e.W] = map[string]int{}
-				}
-				delivered[e.W][tk]++
-			} else {
-				add("C08.torn", "bare-newline", "destination %d received a bare newline during %s task %d op %d, which is not a blank Print/Println", e.W, e.Ph, e.T, e.Op)
+			// the record of a blank Print/Println. It names no call, and the statement does not say which goroutine
+			// hands a record to the destination (a logger may let the goroutine that is writing anyway take along
+			// what others finished meanwhile), so blank records are counted per destination, not per call window
+			if delivered[e.W] == nil {
+				delivered[e.W] = map[string]int{}
 			}
+			delivered[e.W][c08Blank]++
 			continue
 		}
 		found := map[string]bool{}
@@ -532,9 +532,8 @@ func (p *C08) Check(sc *scen.Scenario, run *orch.Run, env *orch.Env) []orch.Viol
 			add("C08.torn", "blank-with-text", "the blank call %s produced a payload with text: %.200q", tk, text)
 			continue
 		}
-		if e.T != c.task || e.Op != c.idx+1 || (e.Ph != "" && e.Ph != c.ph) {
-			add("C08.attribution", "other-task", "the record of call %s (task %d) was written during task %d op %d", tk, c.task, e.T, e.Op)
-		}
+		// (a record may be handed to the destination by another goroutine than the one that issued the call: what
+		// is claimed is one whole, uncorrupted payload per admitted call and equal multisets, decided below)
 		if delivered[e.W] == nil {
 			delivered[e.W] = map[string]int{}
 		}
@@ -597,6 +596,16 @@ func (p *C08) Check(sc *scen.Scenario, run *orch.Run, env *orch.Env) []orch.Viol
 			}
 			add("C08.corrupt", kind, "record of call %s (task %d, logger %d, %s): attribute set differs from the call's own: expected [%s] got [%s]", tk, c.task, c.op.L, fmtNames[l.format], strings.Join(ws, " "), strings.Join(gs, " "))
 		}
+		if m := c08SiteRe.FindSubmatch(e.P); m != nil {
+			// the call site is a function of the statement that issued the call
+			stmt := c.op.Entry + "/" + c.op.Kind
+			if old, ok := siteOf[stmt]; !ok {
+				siteOf[stmt] = string(m[1])
+				siteTok[stmt] = tk
+			} else if old != string(m[1]) {
+				add("C08.corrupt", "caller", "record of call %s (%s) names line %s of the calling file as its call site, the record of call %s issued by the same statement names line %s", tk, c.op.Entry, m[1], siteTok[stmt], old)
+			}
+		}
 		if l.format != fmtColor {
 			if lv, ok := levelField(e.P); ok && lv != worldLevelName(run, c.op.Lvl) {
 				add("C08.corrupt", "level", "record of call %s carries level %q, the call was issued at %s", tk, lv, model.LevelName(c.op.Lvl))
@@ -615,7 +624,11 @@ func (p *C08) Check(sc *scen.Scenario, run *orch.Run, env *orch.Env) []orch.Viol
 			if wantD[w] == nil {
 				wantD[w] = map[string]int{}
 			}
-			wantD[w][tk]++
+			if c.op.Kind == "blank" {
+				wantD[w][c08Blank]++
+			} else {
+				wantD[w][tk]++
+			}
 		}
 	}
 	wids := map[int]bool{}
@@ -653,6 +666,11 @@ func (p *C08) Check(sc *scen.Scenario, run *orch.Run, env *orch.Env) []orch.Viol
 	}
 	return dedupe(out)
 }
+
+var c08SiteRe = regexp.MustCompile(`interp\.go:(\d+)`)
+
+// c08Blank stands for "the record of some blank Print/Println" in the delivered/expected multisets.
+const c08Blank = "(bare newline)"
 
 // c08Flatten is flattenArgs for the arg kinds of this workload (error-valued attributes carry no checked value).
 func c08Flatten(as []scen.Arg) []mAttr {
